@@ -69,3 +69,10 @@ Definition mkcase r k dt sh nb np tb tf si lg : case :=
   {| c_rep := r; c_constructed := k; c_dtype := dt; c_shape := sh; c_nbytes := nb; c_numpy := np;
      c_tobytes := tb; c_tofile := tf; c_ser_inner := si; c_logical := lg |}.
 Definition mkdest (c : list N) (p : N) : dest := {| d_content := c; d_pos := N.to_nat p |}.
+
+(* string tensors *)
+Record scase := { sc_rep : srep; sc_numpy : list (list N); sc_data : list (list N); sc_nbytes : N }.
+Definition sagree (c : scase) : bool :=
+  list_eqb nl_eqb (s_numpy (sc_rep c)) (sc_numpy c) && list_eqb nl_eqb (s_string_data (sc_rep c)) (sc_data c)
+  && (s_nbytes (sc_rep c) =? sc_nbytes c).
+Definition mkscase r a b c : scase := {| sc_rep := r; sc_numpy := a; sc_data := b; sc_nbytes := c |}.
